@@ -595,6 +595,51 @@ def rule_arity(repo: Repo, rid: str = "C01.arity") -> RuleResult:
     return r
 
 
+COMPARISON_VOCABULARY = {"<=", ">=", "<", ">", "="}
+_COMPLEMENT = {"<=": ">", ">=": "<", "<": ">=", ">": "<="}
+_MIRROR = {"<=": ">=", ">=": "<=", "<": ">", ">": "<", "=": "="}
+
+
+def rule_optables(repo: Repo, rid: str = "C01.optables") -> RuleResult:
+    """a table that maps comparison operators to comparison operators rewrites the formula: it has to be the identity, the exact
+    complement (what `not` means: <= becomes >, < becomes >=) or the exact mirror (what swapping the operands means); a mixture accepts
+    a form silently and gives it another meaning at the boundary (equal operands)"""
+    r = RuleResult(rid, "operator-to-operator tables of the parsers are the identity, the complement or the mirror of the comparison operators -- and the complement where used under (not ..)",
+                   "each action's precondition denotes the same formula as written (a negated comparison is complemented or rejected)")
+    mods = [repo.module(m) for m in ("lisp_parsers.parsing_utils",) + tuple(PARSER_MODS)]
+    found = 0
+    for m in mods:
+        for name, (kind, node) in list(m.defs.items()):
+            if kind != "const" or not isinstance(node, ast.Dict) or not node.keys:
+                continue
+            ok, keys = True, []
+            pairs = {}
+            for k, v in zip(node.keys, node.values):
+                if not (isinstance(k, ast.Constant) and isinstance(v, ast.Constant) and k.value in COMPARISON_VOCABULARY and v.value in COMPARISON_VOCABULARY):
+                    ok = False
+                    break
+                pairs[k.value] = v.value
+            if not ok or not pairs:
+                continue
+            found += 1
+            r.site(f"{m.short}.{name}")
+            owner = (m.short, name, str(m.path))
+            kinds = {"identity": all(k == v for k, v in pairs.items()),
+                     "complement": all(_COMPLEMENT.get(k) == v for k, v in pairs.items()),
+                     "mirror": all(_MIRROR.get(k) == v for k, v in pairs.items())}
+            which = [k for k, v in kinds.items() if v]
+            if not which:
+                wrong = {k: v for k, v in pairs.items() if _COMPLEMENT.get(k) != v}
+                r.fail(Finding(rid, owner, f"operator-table:mixed:{name}", f"{name} = {pairs} is neither the complement nor the mirror of the comparison operators "
+                               f"(as a negation table {wrong} are wrong: with equal operands the rewritten comparison differs from the negated one)", node=node))
+            else:
+                r.ok({"table": f"{m.short}.{name}", "is": which})
+    if not found:
+        r.site("no operator-to-operator table in the parser modules")
+        r.ok({"tables": 0})
+    return r
+
+
 # --------------------------------------------------------------------------- duplicate keys
 def rule_dupkeys(repo: Repo, rid: str, funcs: List[str]) -> RuleResult:
     """`funcs` are public entry points; the dict is whatever is handed over as `signature=` to a Predicate / PDDLFunction /
@@ -852,6 +897,7 @@ def rules(repo: Repo, tier: str) -> List[RuleResult]:
         c12.rule_tables(repo, "C01.tables"),
         rule_dupkeys(repo, "C01.dupkeys", ["lisp_parsers.parsing_utils::parse_untyped_predicate", "models.numerical_expression::construct_expression_tree"]),
         rule_order(repo),
+        rule_optables(repo),
         c12.rule_order(repo, "C01.operands"),
         rule_leftover(repo, "C01.leftover", ["DomainParser.parse_types", "DomainParser.parse_constants", "lisp_parsers.parsing_utils::parse_signature"]),
     ] + _type_rules(repo)
